@@ -581,7 +581,107 @@ def _two_objects_points(tier):
 
 
 RAILS = {"int16": [-32768, -32767, -1, 0, 1, 32766, 32767], "int32": [-2 ** 31, -2 ** 31 + 1, 0, 2 ** 31 - 1],
-         "int8": [-128, -127, 0, 126, 127]}
+         "int8": [-128, -127, 0, 126, 127], "int64": [-2 ** 63, -2 ** 62, -2 ** 53, 0, 2 ** 53, 2 ** 62],
+         "uint8": [0, 1, 127, 128, 254, 255], "uint16": [0, 1, 32767, 32768, 65535],
+         "uint32": [0, 1, 2 ** 31, 2 ** 32 - 1],
+         # float64-representable values only (the working precision is float64 by definition)
+         "uint64": [0, 1, 2 ** 53, 2 ** 62, 2 ** 63, 2 ** 63 + 2048, 2 ** 64 - 2048]}
+
+
+ROUTES = ("copy", "deepcopy", "pickle", "pickle_after_set", "deepcopy_after_set")
+
+
+def _routes_point(pt, seed):
+    """pre-processors that TRAVEL: copy.copy / copy.deepcopy / pickle round trip of an object with a
+    non-default coefficient (given to the constructor, or assigned to the public attribute afterwards);
+    the copy must apply ITS coefficient (closed-form oracle), and so must the original afterwards"""
+    import copy
+    import pickle
+    from pydrobert.speech import pre
+
+    proc, dtype, coeff, route = pt
+    cls = {"Preemphasize": pre.Preemphasize, "Dither": pre.Dither}[proc]
+    case = dict(kind="routes", proc=proc, dtype=dtype, coeff=coeff, route=route)
+    if route.endswith("_after_set"):
+        obj = cls()
+        obj.coeff = coeff
+    else:
+        obj = cls(coeff)
+    fn = {"copy": copy.copy, "deepcopy": copy.deepcopy,
+          "pickle": lambda o: pickle.loads(pickle.dumps(o))}[route.split("_")[0]]
+    r = computers.call(fn, obj)
+    if r[0] != "ok":
+        return core.result([core.violation(dict(proc=proc, what="exception", route=route, exc=r[1]),
+                                           "%s of %s(%r) raised %s: %s" % (route, proc, coeff, r[1], r[2]), case)])
+    vals = _values(seed, 6, dtype)
+    viol = []
+    for who, o in (("copy", r[1]), ("original", obj)):
+        np.random.seed(99)
+        g = computers.call(lambda: o.apply(np.array(vals, copy=True)))
+        if proc == "Preemphasize":
+            want = _pre_ref(vals, coeff, dtype)
+            ok = g[0] == "ok" and _same(g[1], want)
+        else:
+            np.random.seed(99)
+            noise = np.random.normal(0, coeff, vals.shape) if coeff else np.zeros(vals.shape)
+            total = vals.astype(np.float64) + noise
+            want = np.trunc(total).astype(dtype) if np.dtype(dtype).kind == "i" else total.astype(dtype)
+            ok = g[0] == "ok" and g[1].dtype == want.dtype and g[1].shape == want.shape and bool(np.all(
+                np.abs(g[1].astype(np.float64) - want.astype(np.float64)) <= (
+                    0 if np.dtype(dtype).kind == "i" else 8 * np.spacing(np.abs(total)))))
+        if not ok:
+            viol.append(core.violation(
+                dict(proc=proc, what="values_after_transport", route=route, who=who),
+                "%s(%r) via %s: apply on the %s returned %s, reference for coeff %r is %r" % (
+                    proc, coeff, route, who, g[1].tolist() if g[0] == "ok" else g[1:], coeff, want.tolist()),
+                case))
+            break
+    return core.result(viol, obs=[proc, route, len(viol) == 0], sample=case)
+
+
+TIE_COEFFS = (0.7, 0.07, 0.94, 0.97, 0.95, 0.9, 0.3, 0.1, 0.01, 0.99, 0.6, -0.7, 1.1, 0.007)
+
+
+def _tie_sweep_point(pt):
+    """EVERY int16 value as the previous sample (x ascending by 1, descending by 1, and by 7 mod 2^16):
+    y[i] = trunc(float64(x[i]) - coeff * float64(x[i-1])) exactly - the products coeff*x that are whole
+    numbers on paper land a few ulps beside the integer in float64, and the truncating cast must see
+    exactly that float64 value (the property: computed in float64 and cast back)"""
+    from pydrobert.speech import pre
+
+    coeff, order, dtype, in_place = pt
+    info = np.iinfo(dtype)
+    n = int(info.max) - int(info.min) + 1
+    base = np.arange(int(info.min), int(info.max) + 1, dtype=np.int64)
+    if order == "descending":
+        base = base[::-1]
+    elif order == "step7":
+        base = (np.arange(n, dtype=np.int64) * 7) % n + int(info.min)
+    x = base.astype(dtype)
+    x64 = x.astype(np.float64)
+    y = x64.copy()
+    y[1:] = x64[1:] - coeff * x64[:-1]
+    inside = (y > float(info.min) - 1) & (y < float(info.max) + 1)
+    want = np.trunc(y[inside]).astype(dtype)
+    case = dict(kind="tie_sweep", coeff=coeff, order=order, dtype=dtype, in_place=in_place)
+    r = computers.call(lambda: pre.Preemphasize(coeff).apply(np.array(x, copy=True), in_place=in_place))
+    if r[0] != "ok":
+        return core.result([core.violation(dict(proc="Preemphasize", what="exception", exc=r[1], sweep=True),
+                                           str(r[1:]), case)])
+    got = r[1]
+    viol = []
+    if got.dtype != np.dtype(dtype) or got.shape != x.shape or not np.array_equal(got[inside], want):
+        k = int(np.flatnonzero(got[inside] != want)[0]) if got.shape == x.shape else -1
+        viol.append(core.violation(
+            dict(proc="Preemphasize", what="values", sweep=True, dtype_kind="i"),
+            "coeff %r, %s sweep of every %s value: x[i]=%r x[i-1]=%r: float64 gives %r, trunc %r, got %r "
+            "(%d samples differ)" % (coeff, order, dtype, x[inside][k].item(),
+                                     x64[np.flatnonzero(inside)[k] - 1], float(y[inside][k]), want[k].item(),
+                                     got[inside][k].item(), int(np.sum(got[inside] != want))), case))
+    return core.result(viol, obs=[coeff, len(viol) == 0], evals=n, nontrivial_count=n, sample=case)
+
+
+
 
 
 def _rails_point(pt):
@@ -608,7 +708,7 @@ def _rails_point(pt):
     total = x.astype(np.float64) + noise
     info = np.iinfo(dtype)
     inside = (total > info.min - 1) & (total < info.max + 1)
-    want = np.trunc(total[inside]).astype(dtype)
+    want = np.array([int(v) for v in np.trunc(total[inside])], dtype=dtype)  # Python ints: exact for uint64 too
     if r[1].dtype != np.dtype(dtype) or not np.array_equal(r[1][inside], want):
         k = int(np.flatnonzero(r[1][inside] != want)[0]) if r[1].dtype == np.dtype(dtype) else -1
         viol.append(core.violation(
@@ -652,8 +752,24 @@ def subchecks(tier, seed):
             replay=lambda c: _two_objects((c["proc"], c["dtype"], c["ca"], c["cb"], c["ops"]), seed),
             kind="explore"),
         core.SubCheck(
+            "routes", [(p, d, c, rt) for p in ("Preemphasize", "Dither") for d in ("float64", "int16")
+                       for c in (0.0, 0.5, 2.0) for rt in ROUTES], lambda p: _routes_point(p, seed),
+            "objects with a non-default coefficient after copy.copy / deepcopy / pickle round trip (coefficient "
+            "from the constructor or assigned afterwards): copy and original vs the closed form",
+            replay=lambda c: _routes_point((c["proc"], c["dtype"], c["coeff"], c["route"]), seed)),
+        core.SubCheck(
+            "preemphasize_tie_sweep",
+            [(c, o, "int16", ip) for c in TIE_COEFFS for o in ("ascending", "descending", "step7")
+             for ip in (False, True)] + [(c, "ascending", d, False) for c in TIE_COEFFS[:4] for d in ("int8", "uint8", "uint16")],
+            _tie_sweep_point,
+            "Preemphasize over EVERY value of int16 (also int8/uint8/uint16) as previous sample x 14 "
+            "coefficients whose products are whole on paper x 3 orders x in_place: exact trunc of the float64 "
+            "value; non-trivial = always",
+            axes=dict(coeff=list(TIE_COEFFS), order=["ascending", "descending", "step7"]),
+            replay=lambda c: _tie_sweep_point((c["coeff"], c["order"], c["dtype"], c["in_place"]))),
+        core.SubCheck(
             "dither_rails", rails, _rails_point,
-            "integer signals at the minimum / maximum of their dtype x numpy seed x coeff {0, .25, 1}: "
+            "integer signals (signed and unsigned, 8..64 bit) at the minimum / maximum of their dtype x numpy seed x coeff {0, .25, 1}: "
             "coeff 0 is the identity, otherwise trunc(x + noise) wherever the sum is representable",
             replay=lambda c: _rails_point((c["dtype"], c["numpy_seed"], c["coeff"]))),
         core.SubCheck(
